@@ -285,10 +285,18 @@ Inductive tcase (c : config) (r i : nat) (th : thread) (b : barrier) : thread ->
     md th = Unwind -> blk th = None -> remaining th = S k -> S (bcount b) < nthreads c ->
     tcase c r i th b (set_blk (set_rem th k) (Some (bgen b))) {| bcount := S (bcount b); bgen := bgen b |}.
 
+(** The configuration is the repaired code: the guard exists and every
+    benchmark thread has its thread-local allocation info. *)
+Definition fixed_code (c : config) : Prop := guard c = true /\ forall i, has_info c i = true.
+
+Lemma tprog_info : forall c r i, has_info c i = true -> tprog c r i = prog (ssize c r) (shp c).
+Proof. intros c r i H. unfold tprog. rewrite H. reflexivity. Qed.
+
 Lemma tstep_cases : forall c r i th b th' b',
+  has_info c i = true ->
   tstep c r i th b = Some (th', b') -> tcase c r i th b th' b'.
 Proof.
-  intros c r i th b th' b' H. unfold tstep in H.
+  intros c r i th b th' b' HI H. unfold tstep in H. rewrite (tprog_info _ _ _ HI) in H.
   destruct (md th) eqn:M; destruct (blk th) as [g|] eqn:B; try discriminate.
   - (* Run, blocked *)
     destruct (Nat.eqb_spec g (bgen b)); [discriminate|]. inversion H; subst. eapply TLeaveRun; eauto.
@@ -351,9 +359,10 @@ Inductive scase (c : config) (st : state) : label -> state -> Prop :=
     tcase c (round st) i th (bar st) th' b' ->
     scase c st (LThread i) {| gp := GRun; round := round st; bar := b'; ths := upd i th' (ths st) |}.
 
-Lemma step_cases : forall c st l st', step c st l = Some st' -> scase c st l st'.
+Lemma step_cases : forall c st l st',
+  (forall i, has_info c i = true) -> step c st l = Some st' -> scase c st l st'.
 Proof.
-  intros c st l st' H. unfold step in H.
+  intros c st l st' HI H. unfold step in H.
   destruct l as [| |i]; destruct (gp st) eqn:G; try discriminate.
   - destruct (Nat.ltb_spec (round st) (nrounds c)); inversion H; subst; [apply SStart|apply SFinish]; auto.
   - destruct (forallb finished (ths st)) eqn:F; [|discriminate].
